@@ -340,6 +340,8 @@ func Run(r *ev.Run) {
 	r.Rule(fmt.Sprintf("(i) json.Unmarshal into Schema of every byte string of length<=%d over the 14-byte alphabet {}[]\":,tn01.-\\xc3, of every keyword x 23 JSON values of every shape (alone, nested, twice) and of the complete single-byte edit neighbourhood (delete/replace/insert at every offset) of %d minimal documents (one per keyword shape); ", maxLen, len(minimalDocs)) +
 		"(ii) Resolve (then Validate, Marshal, CloneSchemas when it succeeds) on Schema graphs: every pair of subschema-bearing fields with a shared child, a 2-cycle, self-cycles, nil children, the same child twice, 300-deep chains, conflicting fields, 23 malformed URIs in every URI-valued field, 66 JSON Pointers leading into non-schema keywords of a fully populated schema ($ref and $dynamicRef), x 13 resolve-option sets (malformed/relative/fragment BaseURI, loader error / wrong document / self-referential / ping-pong universe, ValidateDefaults with malformed default bytes); " +
 		"(v) three-document universes root -> d1 -> d2 through a Loader, each document declaring 2020-12 / draft-07 / nothing, d1 and d2 each carrying one of 15 draft-specific keyword shapes, 4 root forms: Resolve, then Validate and ApplyDefaults on 6 instances; " +
+		"(vi) 128 three-document universes whose documents refer back into documents that are still being resolved, with defaults beside the references, resolved with and without ValidateDefaults; " +
+		"(vii) recursive definitions whose anchor or resource sits below the root (fragment $id / $anchor / $dynamicAnchor / nested $id), both drafts; " +
 		"(iii) Validate and ApplyDefaults on every (schema, value, representation) of C08's space, plus ApplyDefaults on typed map targets with defaults of matching and of wrong JSON type; (iv) For/ForType on every G-type type incl. recursive and unsupported ones x IgnoreInvalidTypes x TypeSchemas {nil, shared, cyclic}. " +
 		"Oracle: recover() around each call; a fatal runtime error kills the worker process and is attributed by the parent through the mmap journal; 900 s watchdog per call. Non-trivial = every call (distinct by construction)")
 	r.Assume("contract violations are not inputs: ApplyDefaults with a non-pointer / struct target, ForType(nil), cyclic instances, a Loader returning (nil, nil)")
@@ -552,6 +554,108 @@ func Run(r *ev.Run) {
 
 	// (v) documents of different drafts in one universe
 	mixedDrafts(r)
+	// (vi) documents that refer back into a document that is still being resolved, with defaults
+	cyclicDefaults(r)
+	// (vii) recursive definitions whose anchor / resource sits below the root, in both drafts
+	recursiveDocs(r)
+}
+
+func recursiveDocs(r *ev.Run) {
+	const d7 = `"$schema":"http://json-schema.org/draft-07/schema#",`
+	docs := []string{
+		`{` + d7 + `"definitions":{"node":{"$id":"#node","type":"object","properties":{"kids":{"type":"array","items":{"$ref":"#node"}}}}},"allOf":[{"$ref":"#node"}]}`,
+		`{` + d7 + `"properties":{"a":{"$id":"#a","properties":{"b":{"$id":"inner.json","properties":{"c":{"$ref":"#/definitions/x"}},"definitions":{"x":{"$id":"#x"}}}}}},"definitions":{"x":{"type":"integer"}}}`,
+		`{` + d7 + `"definitions":{"n":{"$id":"#n","items":[{"$ref":"#n"},{"$id":"http://h/sub.json","items":{"$ref":"#/definitions/m"},"definitions":{"m":{"$id":"#m","type":"integer"}}}]}},"items":{"$ref":"#n"}}`,
+		`{` + d7 + `"$id":"http://h/root.json","definitions":{"n":{"$id":"#n","patternProperties":{"^k":{"$ref":"#n"}},"additionalProperties":{"$ref":"root.json#n"}}},"properties":{"p":{"$ref":"#n"}}}`,
+		`{"$defs":{"node":{"$anchor":"node","type":"object","properties":{"kids":{"type":"array","items":{"$ref":"#node"}}}}},"$ref":"#node"}`,
+		`{"$defs":{"n":{"$dynamicAnchor":"n","prefixItems":[{"$dynamicRef":"#n"}],"items":{"$id":"http://h/sub.json","$anchor":"m","items":{"$ref":"#m"}}}},"$ref":"#/$defs/n"}`,
+		`{"$id":"http://h/root.json","$defs":{"a":{"$id":"a/","$defs":{"b":{"$id":"b/","$anchor":"x","properties":{"up":{"$ref":"../../root.json"},"self":{"$ref":"#x"}}}}}},"properties":{"p":{"$ref":"a/b/#x"}}}`,
+	}
+	insts := []func() any{
+		func() any { return map[string]any{"kids": []any{map[string]any{"kids": []any{map[string]any{}, 1.0}}}} }, func() any { return []any{[]any{[]any{1.0}, []any{"s"}}, 1.0} },
+		func() any {
+			return map[string]any{"a": map[string]any{"b": map[string]any{"c": 1.0}}, "p": map[string]any{"k": 1.0, "z": map[string]any{"k": map[string]any{}}, "up": map[string]any{"p": map[string]any{"self": 1.0}}}}
+		}, func() any { return 1.0 },
+	}
+	par.For(len(docs)*2, r.Expired, func(i int, j par.Journal) {
+		{
+			d, vd := docs[i/2], i%2 == 1
+			call(r, j, fmt.Sprintf("Recursive(%s, ValidateDefaults=%v)", d, vd), func() {
+				var s jsonschema.Schema
+				if json.Unmarshal([]byte(d), &s) != nil {
+					return
+				}
+				rs, err := s.Resolve(&jsonschema.ResolveOptions{ValidateDefaults: vd})
+				if err != nil {
+					return
+				}
+				for _, mk := range insts {
+					rs.Validate(mk())
+					x := mk()
+					rs.ApplyDefaults(&x)
+				}
+				json.Marshal(&s)
+				s.CloneSchemas()
+			})
+			r.NontrivialN(1)
+		}
+	})
+}
+
+// cyclicDefaults: root, l.json and k.json refer to each other (always through an
+// instance-descending keyword), defaults sit beside the cross-document references;
+// Resolve with and without ValidateDefaults, then Validate and ApplyDefaults.
+func cyclicDefaults(r *ev.Run) {
+	roots := []string{
+		`{"$defs":{"l":{"$ref":"l.json"}},"type":"object","properties":{"viaK":{"$ref":"k.json"},"l":{"$ref":"#/$defs/l"}}}`,
+		`{"properties":{"a":{"$ref":"k.json"},"b":{"$ref":"l.json"},"viaK":{"$ref":"k.json"}},"$defs":{"z":{"$ref":"l.json#/properties/x"}}}`,
+		`{"$defs":{"k":{"$ref":"k.json"},"l":{"$ref":"l.json"}},"properties":{"viaK":{"$ref":"#/$defs/k"},"l":{"$ref":"#/$defs/l"}},"default":{"l":{"x":%s}}}`,
+		`{"$id":"http://example.com/canon-root.json","properties":{"l":{"$ref":"http://example.com/l.json"},"viaK":{"$ref":"http://example.com/k.json","default":%s}}}`,
+	}
+	ls := []string{
+		`{"type":"object","properties":{"x":{"$ref":"root.json#/properties/viaK","default":%s}}}`,
+		`{"properties":{"x":{"$ref":"k.json","default":%s},"y":{"$ref":"root.json#/properties/viaK"}},"default":{"x":%s}}`,
+		`{"items":{"$ref":"root.json#/properties/viaK","default":%s},"properties":{"x":{"$ref":"#/items"}}}`,
+		`{"properties":{"x":{"$ref":"k.json#/properties/q","default":%s}}}`,
+	}
+	ks := []string{
+		`{"type":"integer"}`,
+		`{"$id":"http://example.com/canon-k.json","type":"integer","default":%s}`,
+		`{"properties":{"q":{"$ref":"root.json#/properties/viaK","default":%s}},"type":["integer","object"]}`,
+		`{"properties":{"q":{"$ref":"l.json","default":{"x":%s}}},"type":["integer","object"]}`,
+	}
+	insts := []func() any{
+		func() any { return map[string]any{} }, func() any { return map[string]any{"viaK": 1.0, "l": map[string]any{"x": 2.0}} },
+		func() any { return map[string]any{"viaK": 1.0, "l": map[string]any{"x": "two"}} }, func() any {
+			return map[string]any{"a": map[string]any{"q": map[string]any{"x": 1.0}}, "b": []any{1.0, "s"}}
+		}, func() any { return 1.0 },
+	}
+	n := len(roots) * len(ls) * len(ks) * 2 * 2
+	r.Set("cyclic_default_universes", n)
+	par.For(n, r.Expired, func(i int, j par.Journal) {
+		k := i
+		pick := func(m int) int { x := k % m; k /= m; return x }
+		vd, d, ki, li, ri := pick(2) == 1, []string{`5`, `"s"`}[pick(2)], pick(len(ks)), pick(len(ls)), pick(len(roots))
+		root := strings.ReplaceAll(roots[ri], "%s", d)
+		docs := map[string]string{"http://example.com/l.json": strings.ReplaceAll(ls[li], "%s", d), "http://example.com/k.json": strings.ReplaceAll(ks[ki], "%s", d)}
+		call(r, j, fmt.Sprintf("Cyclic(root %s, l %s, k %s, ValidateDefaults=%v)", root, docs["http://example.com/l.json"], docs["http://example.com/k.json"], vd), func() {
+			ml := &drive.MapLoader{Docs: docs}
+			var s jsonschema.Schema
+			if err := json.Unmarshal([]byte(root), &s); err != nil {
+				return
+			}
+			rs, err := s.Resolve(&jsonschema.ResolveOptions{BaseURI: "http://example.com/root.json", Loader: ml.Load, ValidateDefaults: vd})
+			if err != nil {
+				return
+			}
+			for _, mk := range insts {
+				rs.Validate(mk())
+				x := mk()
+				rs.ApplyDefaults(&x)
+			}
+		})
+		r.NontrivialN(1)
+	})
 }
 
 // mixedDrafts: root -> d1 -> d2 through a Loader, every document declaring 2020-12, draft-07 or
